@@ -105,5 +105,12 @@ for sid, (prop, needs, caught) in T.items():
             'what_i_ran': ['tools/confirm_seed.sh <worktree> <OUT/n> %s  (go build ./...; demo test on the clean tree and with the patch; tests of the touched packages before/after)' % sid,
                            'MUT_SEEDS="1 2" tools/mutcheck.sh <worktree> patch.diff %s  (the checks built against the mutated worktree)' % prop],
             'detected_by': caught}
+    try:
+        rv = json.load(open(d + '/reval.json'))
+        meta['revalidated_at_repo_head'] = {'head': rv.get('head'), 'patch_applies': rv.get('applies'), 'confirm': rv.get('confirm_line'),
+                                           'caught_by_registered_check': rv.get('caught'),
+                                           'runs': {k: {'violation_lines': v['violation_lines'], 'signatures': v['signatures'][:4]} for k, v in (rv.get('runs') or {}).items()}}
+    except Exception:
+        pass
     json.dump(meta, open(d + '/meta.json', 'w'), indent=1)
 print('ok')
